@@ -63,8 +63,9 @@ func main() {
 	// process must be short-lived
 	go func() {
 		time.Sleep(110 * time.Second)
-		fmt.Fprintln(os.Stderr, "drv: exceeded 110 s, aborting (harness error, not a verdict)")
-		os.Exit(3)
+		fmt.Fprintln(os.Stderr, "drv: exceeded 110 s, giving up; the partial trace is kept")
+		hx.FlushAll()
+		os.Exit(4)
 	}()
 	if err := f(c); err != nil {
 		fmt.Fprintln(os.Stderr, "drv:", err)
